@@ -144,6 +144,30 @@ impl Engine for C17 {
             "python3 is on PATH (present in the sandbox)".into(),
         ]
     }
+    fn exhaustive(&self, _tier: Tier) -> Vec<Case> {
+        // one index record of more than 2 MiB (600 KB of raw metadata spelled as a JSON array),
+        // written through each flavour, next to ordinary records
+        let mut out = Vec::new();
+        for fl in [Fl::Sync, Fl::Async] {
+            let mut s = WriteSpec::simple(Some(0), 0);
+            s.entry = WEntry::Opts;
+            s.raw_metadata = Some(crate::gen::huge_raw_meta(612_345, 3));
+            s.time = Some("4242".into());
+            let steps = vec![
+                Step { op: Op::Write(WriteSpec::simple(Some(1), 1)), fl },
+                Step { op: Op::Write(s), fl },
+                Step { op: Op::Write(WriteSpec::simple(Some(1), 0)), fl },
+            ];
+            out.push(Case {
+                prog: Program { keys: vec!["huge-record-ключ".into(), "small".into()], blobs: vec![crate::blob::Blob::new(4, 1), crate::blob::Blob::new(6, 2)], steps },
+                styles: vec![(false, false), (true, true), (false, true)],
+            });
+        }
+        out
+    }
+    fn exhaustive_note(&self, _tier: Tier) -> String {
+        "fixed family: an index record larger than 2 MiB written through each flavour (and by the reference implementation) next to ordinary records".into()
+    }
     fn random_cases(&self, tier: Tier) -> u32 {
         tier.pick(1500, 20000)
     }
